@@ -207,6 +207,19 @@ def _raised_in_repo(e):
     return any(f.filename.startswith(env.REPO + os.sep) for f in frames)
 
 
+def anchor_files(pid):
+    """anchors.files of the property (relative to the repository root), from the given properties.jsonl."""
+    try:
+        with open(os.path.join(env.VERIF, "properties.jsonl")) as fh:
+            for ln in fh:
+                p = json.loads(ln)
+                if p.get("id") == pid:
+                    return [f for f in p.get("anchors", {}).get("files", []) if f.endswith(".py")]
+    except OSError:
+        pass
+    return []
+
+
 def dump(path, obj):
     tmp = path + ".tmp"
     with open(tmp, "w") as fh:
